@@ -1500,16 +1500,10 @@ class _AssociationList(_AssociationSingleItem[_T], MutableSequence[_T]):
         if not isinstance(index, slice):
             self._set(self.col[index], cast("_T", value))
         else:
-            if index.stop is None:
-                stop = len(self)
-            elif index.stop < 0:
-                stop = len(self) + index.stop
-            else:
-                stop = index.stop
-            step = index.step or 1
-
-            start = index.start or 0
-            rng = list(range(index.start or 0, stop, step))
+            # resolve the slice as list does (negative / out of range
+            # bounds, reversed ranges)
+            start, stop, step = index.indices(len(self))
+            rng = list(range(start, stop, step))
 
             sized_value = list(value)
 
@@ -1527,7 +1521,7 @@ class _AssociationList(_AssociationSingleItem[_T], MutableSequence[_T]):
                         "extended slice of size %s"
                         % (len(sized_value), len(rng))
                     )
-                for i, item in zip(rng, value):
+                for i, item in zip(rng, sized_value):
                     self._set(self.col[i], item)
 
     @overload
